@@ -1140,3 +1140,66 @@ def const_table(body, adt, self_coord_param=1):
             for (v,) in st.get(bb, ()):
                 out[v].add("call")
     return out
+
+
+# --------------------------------------------------------------------------- R-WRITERS / field access inventory
+
+def field_index(pl, owner, field):
+    """index in pl['p'] of the (last) projection that selects `field` of ADT `owner`, or None"""
+    res = None
+    for i, p in enumerate(pl["p"]):
+        if isinstance(p, dict) and p.get("n") == field and (owner is None or p.get("o") == owner or p.get("o", "").endswith("::" + owner)):
+            res = i
+    return res
+
+
+def field_accesses(crate, owner, field, bodies=None):
+    """Inventory of how `owner.field` is touched crate-wide. Yields dicts:
+       {body, bb, idx, kind, callee, mut}   kind in assign | assign-part | call | ref | read | agg-init"""
+    out = []
+    for b in (bodies if bodies is not None else crate.bodies.values()):
+        # temporaries holding a reference to the field (or to a part of it)
+        refs = {}   # local -> (mut, whole)
+        for bb, idx, s in b.stmts():
+            if idx != "t" and s["k"] == "assign":
+                pl, rv = s["pl"], s["rv"]
+                fi = field_index(pl, owner, field)
+                if fi is not None:
+                    whole = (fi == len(pl["p"]) - 1)
+                    out.append({"body": b, "bb": bb, "idx": idx, "kind": "assign" if whole else "assign-part", "callee": None, "mut": True})
+                if rv["k"] in ("ref", "rawptr"):
+                    fi = field_index(rv["pl"], owner, field)
+                    if fi is not None and not pl["p"]:
+                        refs[pl["l"]] = (rv.get("bk") == "mut" or rv["k"] == "rawptr", fi == len(rv["pl"]["p"]) - 1)
+                if rv["k"] == "agg" and rv.get("ak") == "adt" and (rv["adt"] == owner or rv["adt"].endswith("::" + owner)) and field in rv.get("fields", []):
+                    out.append({"body": b, "bb": bb, "idx": idx, "kind": "agg-init", "callee": None, "mut": True,
+                                "op": rv["ops"][rv["fields"].index(field)]})
+        # propagate refs through plain moves/reborrows
+        changed = True
+        while changed:
+            changed = False
+            for bb, idx, s in b.stmts():
+                if idx != "t" and s["k"] == "assign" and not s["pl"]["p"] and s["pl"]["l"] not in refs:
+                    rv = s["rv"]
+                    src = None
+                    if rv["k"] == "use" and rv["op"]["k"] in ("copy", "move") and not rv["op"]["pl"]["p"]:
+                        src = rv["op"]["pl"]["l"]
+                    elif rv["k"] == "ref" and rv["pl"]["p"] == ["deref"]:
+                        src = rv["pl"]["l"]
+                    if src in refs:
+                        refs[s["pl"]["l"]] = refs[src]
+                        changed = True
+        for bb, t in b.calls():
+            for ai, a in enumerate(t["args"]):
+                if a["k"] in ("copy", "move") and not a["pl"]["p"] and a["pl"]["l"] in refs:
+                    mut, whole = refs[a["pl"]["l"]]
+                    out.append({"body": b, "bb": bb, "idx": "t", "kind": "call", "callee": callee_def(t), "res": callee_name(t),
+                                "mut": mut, "arg": ai, "whole": whole})
+                elif a["k"] in ("copy", "move") and field_index(a["pl"], owner, field) is not None:
+                    out.append({"body": b, "bb": bb, "idx": "t", "kind": "call", "callee": callee_def(t), "res": callee_name(t),
+                                "mut": a["k"] == "move", "arg": ai, "whole": True, "by_value": True})
+        for bb, idx, s in b.stmts():
+            if idx != "t" and s["k"] == "assign" and s["rv"]["k"] == "use" and s["rv"]["op"]["k"] in ("copy", "move"):
+                if field_index(s["rv"]["op"]["pl"], owner, field) is not None:
+                    out.append({"body": b, "bb": bb, "idx": idx, "kind": "read", "callee": None, "mut": s["rv"]["op"]["k"] == "move"})
+    return out
